@@ -399,17 +399,23 @@ CHECKS = {
         design_ref="§6 C19, §10"),
     "C12": dict(
         level="proof",
-        text="Seven theorems, none partial, proved in Coq for all scopes (any DAG/cyclic graph, nesting depth, captures): "
+        text="Theorems, none partial, proved in Coq for all scopes (any DAG/cyclic graph, nesting depth, captures): "
              "outcome is Ok or ValueError (fuel = node count suffices), every graph keeps exactly its nodes (permutation), "
              "Ok result respects same-graph producers of values used by a node or anything nested in it, ValueError iff the "
              "dependency relation is cyclic, nothing changes on ValueError, an ordered well-scoped scope is left exactly "
-             "as it was, determinism. The model of Graph.sort/Function.sort/TopologicalSortPass is tied to the code by "
-             "Coq-evaluated correspondence on generated forests (all orders, outcome, modified flag), reruns under other "
-             "hash seeds and allocation orders; the oracle states the property on the implementation and supplies replays.",
-        note=TRUST + "Modelled, not verified: heapq (only its contract 'pop returns the largest original index'), "
-             "CPython object identity/hash order (reruns under other PYTHONHASHSEED), RecursiveGraphIterator pre-order "
-             "(tied by the correspondence). Hypothesis wf: no node/graph object occurs twice in the scope.",
-        technique="Coq proof over hand model of reverse-Kahn sort; vm_compute correspondence with Graph.sort",
+             "as it was, determinism. The executable model of Graph.sort/Function.sort/TopologicalSortPass is proved equal "
+             "(C12_source_is_model) to a fail-closed statement-by-statement translation of Graph.sort's source regenerated "
+             "on every run (heapq by contract; the predecessor-collection loop, Function.sort, the iterator and the pass "
+             "pinned textually) and is additionally tied by Coq-evaluated correspondence on generated forests: single "
+             "sorts, multi-step edit/sort histories, shared-subgraph malformed inputs, sorts of graphs nested in function "
+             "bodies, reruns under other hash seeds and allocation orders; the oracle supplies replays.",
+        note=TRUST + "Modelled, not verified: heapq (contract: pop returns the smallest key), CPython object identity/hash "
+             "order (reruns under other PYTHONHASHSEED), RecursiveGraphIterator pre-order (pinned + correspondence). "
+             "Hypothesis wf excludes only one Graph object under two attributes (covered by the correspondence: spurious "
+             "ValueError, atomic) and a self-nested graph (RecursionError; oracle-only probe). The frame property for graphs "
+             "outside the sorted scope is oracle-checked.",
+        technique="Coq proof over a model proved equal to the per-run translation of Graph.sort's source; vm_compute "
+                  "correspondence with Graph.sort",
         design_ref="§6 C12, §10"),
     "C20": dict(
         level="proof",
